@@ -1240,3 +1240,287 @@ func staleCapacityReslices(p *Program, fn *ssa.Function) (int, []Finding) {
 	}
 	return n, hits
 }
+
+// ---------------------------------------------------------------------------------------------
+// RANGE-OFFSET: `for i := range s[k:]` (k != 0) numbers the elements of the sub-slice from 0; the
+// body that then indexes the BASE slice with the bare loop index (s[i] instead of s[k+i]) visits
+// the wrong elements: the first k are processed again, the last k never. Reported when the loop
+// index of a range over a sub-slice with a non-zero low bound indexes the slice the sub-slice was
+// taken from.
+// ---------------------------------------------------------------------------------------------
+func rangeOffsetMisuse(p *Program, fn *ssa.Function) (int, []Finding) {
+	n := 0
+	var hits []Finding
+	for _, b := range fn.Blocks {
+		// rangeindex loop header: phi [-1, idx], idx = phi + 1, if idx < len(t)
+		if len(b.Instrs) < 3 {
+			continue
+		}
+		iff, ok := b.Instrs[len(b.Instrs)-1].(*ssa.If)
+		if !ok {
+			continue
+		}
+		a := atomOf(iff.Cond)
+		if a.Kind != "cmp" || a.Op != token.LSS {
+			continue
+		}
+		idx, ok := a.X.(*ssa.BinOp)
+		if !ok || idx.Op != token.ADD {
+			continue
+		}
+		ph, ok := idx.X.(*ssa.Phi)
+		if !ok || ph.Block() != b {
+			continue
+		}
+		if k, ok := constInt(idx.Y); !ok || k != 1 {
+			continue
+		}
+		init := false
+		for _, e := range ph.Edges {
+			if k, ok := constInt(e); ok && k == -1 {
+				init = true
+			}
+		}
+		if !init {
+			continue
+		}
+		l := lenOf(a.Y)
+		if l == nil {
+			continue
+		}
+		sub, ok := stripConv(l).(*ssa.Slice)
+		if !ok || sub.Low == nil {
+			continue
+		}
+		if k, isConst := constInt(sub.Low); isConst && k == 0 {
+			continue
+		}
+		n++
+		base := sub.X
+		if idx.Referrers() == nil {
+			continue
+		}
+		// `for i := range s[1:] { ... s[i] ... s[i+1] ... }` walks adjacent pairs on purpose: the
+		// base is also indexed with index+low
+		adjacent := false
+		for _, r := range *idx.Referrers() {
+			if ad, ok := r.(*ssa.BinOp); ok && ad.Op == token.ADD && ad.Referrers() != nil {
+				other := ad.Y
+				if ad.Y == ssa.Value(idx) {
+					other = ad.X
+				}
+				if sameValue(other, sub.Low, 0) {
+					for _, rr := range *ad.Referrers() {
+						if ia, ok := rr.(*ssa.IndexAddr); ok && (ia.X == base || sameLoadOrValue(ia.X, base)) {
+							adjacent = true
+						}
+					}
+				}
+			}
+		}
+		if adjacent {
+			continue
+		}
+		for _, r := range *idx.Referrers() {
+			ia, ok := r.(*ssa.IndexAddr)
+			if !ok || ia.Index != ssa.Value(idx) {
+				continue
+			}
+			if ia.X == base || sameLoadOrValue(ia.X, base) {
+				hits = append(hits, Finding{fn, ia.Pos(), "range-index-on-base(" + descValue(base, 0) + ")",
+					fmt.Sprintf("%s: the loop ranges over %s[%s:] but indexes %s with the loop index itself: the index counts from the start of the sub-slice, so the first element(s) are visited again and the last never (use base[low+i] or the range value)", funcKey(fn), descValue(base, 0), descValue(sub.Low, 0), descValue(base, 0))})
+			}
+		}
+	}
+	return n, hits
+}
+
+func sameLoadOrValue(a, b ssa.Value) bool {
+	if a == b {
+		return true
+	}
+	return sameLoad(a, b)
+}
+
+// ---------------------------------------------------------------------------------------------
+// SHARED-FIELD-STORAGE: a constructor (or setter) that stores one and the same slice value into
+// two different fields of an object makes the two fields views of one array: a later in-place
+// update of one (copy into it, append(f[:0], ...)) changes the other. Reported for pairs of stores
+// of the same slice-typed SSA value into distinct fields of the same object.
+// ---------------------------------------------------------------------------------------------
+func sharedFieldStorage(p *Program, fn *ssa.Function) (int, []Finding) {
+	type fstore struct {
+		obj   ssa.Value
+		field string
+		pos   token.Pos
+	}
+	byVal := map[ssa.Value][]fstore{}
+	n := 0
+	for _, b := range fn.Blocks {
+		for _, in := range b.Instrs {
+			st, ok := in.(*ssa.Store)
+			if !ok {
+				continue
+			}
+			if _, isSlice := st.Val.Type().Underlying().(*types.Slice); !isSlice {
+				continue
+			}
+			fa, ok := st.Addr.(*ssa.FieldAddr)
+			if !ok {
+				continue
+			}
+			if c, isConst := st.Val.(*ssa.Const); isConst && c.Value == nil {
+				continue
+			}
+			n++
+			byVal[st.Val] = append(byVal[st.Val], fstore{fa.X, fieldName(fa.X.Type(), fa.Field), st.Pos()})
+		}
+	}
+	var hits []Finding
+	for v, ss := range byVal {
+		for i := 0; i < len(ss); i++ {
+			for j := i + 1; j < len(ss); j++ {
+				if ss[i].obj == ss[j].obj && ss[i].field != ss[j].field {
+					f1, f2 := ss[i].field, ss[j].field
+					if f2 < f1 {
+						f1, f2 = f2, f1
+					}
+					hits = append(hits, Finding{fn, ss[j].pos, "shared-storage(" + f1 + "," + f2 + ")",
+						fmt.Sprintf("%s: the same slice (%s) is stored in the fields %s and %s of one object: they share a backing array, an in-place update of one is an update of the other", funcKey(fn), descValue(v, 0), f1, f2)})
+				}
+			}
+		}
+	}
+	return n, hits
+}
+
+// ---------------------------------------------------------------------------------------------
+// CHUNK-REMAINDER: a number of chunks obtained by the floor division n / size that bounds a loop
+// which starts one goroutine per chunk and rebuilds positions as k*size covers only (n/size)*size
+// elements. Unless n is known to
+// be a multiple of size, the function has to treat the remainder: it uses n % size, computes the
+// count as a ceiling division, or clamps an end position against n. Reported: a floor-divided
+// trip count, multiplied back by the divisor in the loop, in a function with none of the three.
+// ---------------------------------------------------------------------------------------------
+func chunkRemainderDropped(p *Program, fn *ssa.Function) (int, []Finding) {
+	n := 0
+	var hits []Finding
+	loops := loopsOf(fn)
+	if len(loops) == 0 {
+		return 0, nil
+	}
+	for _, b := range fn.Blocks {
+		for _, in := range b.Instrs {
+			q, ok := in.(*ssa.BinOp)
+			if !ok || q.Op != token.QUO || !isInteger(q.Type()) {
+				continue
+			}
+			if k, isConst := constInt(q.Y); isConst && k <= 1 {
+				continue
+			}
+			if _, isConst := constInt(q.X); isConst {
+				continue
+			}
+			// ceiling form (a + b - 1) / b or (a - 1)/b + 1
+			if num, ok := stripConv(q.X).(*ssa.BinOp); ok && (num.Op == token.SUB || num.Op == token.ADD) {
+				if inner, ok := stripConv(num.X).(*ssa.BinOp); ok && inner.Op == token.ADD && (sameValue(inner.Y, q.Y, 0) || sameValue(inner.X, q.Y, 0)) {
+					continue
+				}
+				if num.Op == token.ADD {
+					if k, ok := constInt(num.Y); ok && k > 0 && sameValueOrConstMinus1(num.Y, q.Y) {
+						continue
+					}
+				}
+			}
+			// is q the bound of a loop counter?
+			var loop *loopInfo
+			for _, l := range loops {
+				iff, ok := l.header.Instrs[len(l.header.Instrs)-1].(*ssa.If)
+				if !ok {
+					continue
+				}
+				a := atomOf(iff.Cond)
+				if a.Kind != "cmp" {
+					continue
+				}
+				if sameValue(stripConv(a.Y), q, 0) || sameValue(stripConv(a.X), q, 0) {
+					loop = l
+				}
+			}
+			if loop == nil {
+				continue
+			}
+			// positions rebuilt as k*size inside the loop
+			mulBack := false
+			for bi := range loop.blocks {
+				for _, li := range fn.Blocks[bi].Instrs {
+					if m, ok := li.(*ssa.BinOp); ok && m.Op == token.MUL && (sameValue(m.X, q.Y, 0) || sameValue(m.Y, q.Y, 0)) {
+						mulBack = true
+					}
+				}
+			}
+			// the chunks are handed to goroutines (a sequential loop over n/2 butterflies of a
+			// power-of-two sized vector is not a work partition)
+			spawns := false
+			for bi := range loop.blocks {
+				for _, li := range fn.Blocks[bi].Instrs {
+					if _, isGo := li.(*ssa.Go); isGo {
+						spawns = true
+					}
+				}
+			}
+			if !mulBack || !spawns {
+				continue
+			}
+			n++
+			// remainder treatment anywhere in the function
+			treated := false
+			for _, ob := range fn.Blocks {
+				for _, oi := range ob.Instrs {
+					switch x := oi.(type) {
+					case *ssa.BinOp:
+						if x.Op == token.REM && sameValue(x.X, q.X, 0) && sameValue(x.Y, q.Y, 0) {
+							treated = true
+						}
+						// n - q*size, or a comparison of a position with n
+						if x.Op == token.SUB && sameValue(x.X, q.X, 0) {
+							treated = true
+						}
+						if (x.Op == token.LSS || x.Op == token.GTR || x.Op == token.LEQ || x.Op == token.GEQ || x.Op == token.NEQ || x.Op == token.EQL) && x != nil {
+							if (sameValue(x.X, q.X, 0) || sameValue(x.Y, q.X, 0)) && !sameValue(x.X, q, 0) && !sameValue(x.Y, q, 0) {
+								// a position compared with n (clamp / tail test), not the loop test itself
+								if _, isPhi := stripConv(x.X).(*ssa.Phi); !isPhi {
+									if _, isPhi2 := stripConv(x.Y).(*ssa.Phi); !isPhi2 {
+										treated = true
+									}
+								}
+							}
+						}
+					case *ssa.Call:
+						if bi, ok := x.Call.Value.(*ssa.Builtin); ok && bi.Name() == "min" {
+							for _, a := range x.Call.Args {
+								if sameValue(a, q.X, 0) {
+									treated = true
+								}
+							}
+						}
+					case *ssa.Slice:
+						// the tail s[q*size:] handled after the loop
+						if x.Low != nil && x.High == nil {
+							if m, ok := stripConv(x.Low).(*ssa.BinOp); ok && m.Op == token.MUL && (sameValue(m.X, q, 0) || sameValue(m.Y, q, 0)) {
+								treated = true
+							}
+						}
+					}
+				}
+			}
+			if !treated {
+				hits = append(hits, Finding{fn, q.Pos(), "floor-divided-chunk-count(" + descValue(q, 0) + ")",
+					fmt.Sprintf("%s: the loop runs %s times and rebuilds positions by multiplying with the divisor, and nothing in the function looks at the remainder (no %%, no ceiling division, no clamp against the total): when the total is not a multiple of the chunk size the last partial chunk is never processed", funcKey(fn), descValue(q, 0))})
+			}
+		}
+	}
+	return n, hits
+}
+
+func sameValueOrConstMinus1(a, b ssa.Value) bool { return false }
